@@ -100,9 +100,7 @@ theorem parseEntry_nested {fs : List Field} {n : Str} {cty : Ty} {d : Option Val
     (kvs : List (Str × Tree)) (hk : alookup n kvs = none) (cur : Option Tree)
     (r : Str) (hr : ∀ c ∈ r, keyChar c = true) (cv : ColVal) :
     parseEntry (plainTop fs) (.dict (st kvs n cur)) (n ++ '.' :: r, cv) =
-      (match findSet (fun ty => match leafValue cv ty with
-              | .error e => .error e
-              | .ok pv => assignValue ty pv) cty (initChild cty (cur.getD .none)) (splitDot r) with
+      (match findSet (leafFn cv) cty (initChild cty (cur.getD .none)) (splitDot r) with
         | .error e => .error e
         | .ok sub => .ok (.dict (st kvs n (some sub)))) := by
   unfold parseEntry
@@ -250,7 +248,7 @@ theorem fold_spread_strs {fs : List Field} {n : Str} {d : Option Val}
       rw [parseEntry_nested hn hf kvs hk cur _ (printNat_keyChar _),
         splitDot_simple _ (printNat_no_dot _), hinit,
         findSet_list_next _ _ ts (Tree.str s)
-          (by simp [leafValue, isListTy, isModelTy, parseAsString_ok h1 h2, assignValue, assignStr])]
+          (by simp [leafFn, leafValue, isListTy, isModelTy, parseAsString_ok h1 h2, assignValue, assignStr])]
     cases ss with
     | nil =>
       simp only [spreadCols, inl, List.map_cons, List.map_nil, foldE]
